@@ -218,7 +218,7 @@ def first_diff(a, b):
     for i in range(max(len(a), len(b))):
         x = a[i] if i < len(a) else '<missing>'
         y = b[i] if i < len(b) else '<missing>'
-        if x != y:
+        if x != y and y != '*' and x != '*':
             return i
     return None
 
@@ -269,3 +269,45 @@ def known_findings(pid):
     if not os.path.exists(p):
         return []
     return [k for k in json.load(open(p)) if pid in k.get('properties', [k.get('property')])]
+
+
+# ---------------------------------------------------------------- spec oracle (storage level)
+def spec_oracle(lines, io, spec, cmds, tagger=None):
+    """Compare the implementation's answers with the Coq specification's answers (driver .spec file:
+    'ok <answer>' / 'f2 <answer>' / '-') for the query commands in `cmds`. Returns failure messages;
+    a message starts with '[Fx]' when the failing case belongs to a recognised known class."""
+    fails = []
+    if spec is None:
+        return fails
+    for i, l in enumerate(lines):
+        if i >= len(io) or i >= len(spec):
+            break
+        c = l.split()[0]
+        if c not in cmds or spec[i] == '-' or spec[i] == '':
+            continue
+        flag, ans = spec[i][:2], spec[i][3:]
+        got = io[i]
+        if ans != got:
+            tag = ''
+            if flag == 'f2':
+                tag = '[F2] '
+            elif tagger:
+                tag = tagger(lines, io, i, ans, got) or ''
+            fails.append('%sline %d `%s`: implementation answered `%s`, specification says `%s`' % (tag, i, l, got, ans))
+    return fails
+
+
+def default_classify(known, lines, io, msg):
+    return msg.startswith('[%s]' % known['id'])
+
+
+def ops_signature(lines, io):
+    ops = {}
+    for l, o in zip(lines, io):
+        t = l.split()
+        cls = o.split()[1] if len(o.split()) > 1 else ''
+        if cls.isdigit() or cls.startswith('['):
+            cls = 'n'
+        k = (t[0], cls)
+        ops[k] = ops.get(k, 0) + 1
+    return hash((lines[0], tuple(sorted(ops.items()))))
